@@ -5,6 +5,14 @@ Local Open Scope Z_scope.
 Definition search_factor : Z := 4.
 (* util.go readerContainsAny: halflen := bufflen / D *)
 Definition search_half_div : Z := 2.
+(* memmap.go OpenFile: 1 iff a missing file is created by a separate call of Create after the lookup released the lock (two critical sections) *)
+Definition lin_openfile_split : Z := 1.
+(* memmap.go OpenFile: 1 iff the mode of a created file is set by a trailing setFileMode (a further lookup by name) *)
+Definition lin_openfile_setmode : Z := 1.
+(* memmap.go Mkdir: 1 iff it calls setFileMode (a further lookup by name) after releasing the write lock *)
+Definition lin_mkdir_setmode : Z := 1.
+(* memmap.go RemoveAll: number of Lock/RLock acquisitions in its body (1 = one critical section) *)
+Definition lin_removeall_locks : Z := 4.
 (* path.go Walk: 1 iff a final filepath.SkipDir is converted into nil (as path/filepath.Walk does) *)
 Definition walk_skipdir_to_nil : Z := 1.
 (* sftpfs/sftp.go MkdirAll: 1 iff the fast path returns an error for an existing non-directory *)
